@@ -138,51 +138,16 @@ func (n *node[K, V]) get(key K, d int) (*node[K, V], error) {
 	if len(key) == 0 {
 		return nil, fmt.Errorf("key for the get() method should not be empty")
 	}
+	c := key[d]
 
-	{
-		var inl1_v0 *node[K, V]
-	inl1done:
-		switch {
-		default:
-			var n *node[K, V] = n
-			_ = n
-			var key K = key
-			_ = key
-			var d int = d
-			_ = d
-			var visit func(x *node[K, V], depth int) = nil
-			_ = visit
-			for n != nil {
-				c := key[d]
-
-				if c < n.c {
-					n = n.left
-				} else if c > n.c {
-					n = n.right
-				} else if d < len(key)-1 {
-					d++
-					if visit != nil {
-						visit(n, d)
-					}
-					n = n.mid
-				} else {
-					{
-						inl1_v0 = n
-						break inl1done
-					}
-				}
-			}
-			{
-				inl1_v0 = nil
-				break inl1done
-			}
-		}
-		x := inl1_v0
-		if x != nil {
-			return x, nil
-		}
+	if c < n.c {
+		return n.left.get(key, d)
+	} else if c > n.c {
+		return n.right.get(key, d)
+	} else if d < len(key)-1 {
+		return n.mid.get(key, d+1)
 	}
-	return nil, ErrorNotFound
+	return n, nil
 }
 
 // LongestPrefix returns the longest prefix of query in the symbol table or empty if such string does not exist.
@@ -196,48 +161,22 @@ func (t *Trie[K, V]) LongestPrefix(query K) (K, error) {
 	}
 
 	length := 0
-	var inl2_v0 *node[K, V]
-inl2done:
-	switch {
-	default:
-		var n *node[K, V] = t.root
-		_ = n
-		var key K = query
-		_ = key
-		var d int = 0
-		_ = d
-		var visit func(x *node[K, V], depth int) = func(x *node[K, V], depth int) {
+	x := t.root
+	i := 0
+	for x != nil && i < len(query) {
+		c := query[i]
+		if c < x.c {
+			x = x.left
+		} else if c > x.c {
+			x = x.right
+		} else {
+			i++
 			if x.isValid {
-				length = depth
+				length = i
 			}
-		}
-		_ = visit
-		for n != nil {
-			c := key[d]
-
-			if c < n.c {
-				n = n.left
-			} else if c > n.c {
-				n = n.right
-			} else if d < len(key)-1 {
-				d++
-				if visit != nil {
-					visit(n, d)
-				}
-				n = n.mid
-			} else {
-				{
-					inl2_v0 = n
-					break inl2done
-				}
-			}
-		}
-		{
-			inl2_v0 = nil
-			break inl2done
+			x = x.mid
 		}
 	}
-	_ = inl2_v0
 	return query[:length], nil
 }
 
